@@ -48,6 +48,8 @@ TRUSTED = ['Coq 8.16.1 kernel + vm_compute (no native_compute)',
            'cross-checked by running every generated energy at binary64 against the implementation',
            'model/M_C08.v: the two-line closures of the material factories (strain = _strain(H); energy(strain, props)) and the unrolled '
            '3-branch loop are composed by hand from generated kernels; tied by the same correspondence',
+           'model/M_C08s.v pw_spec and model/M_C11s.v lss_spec (V diag(f(lam)) V^T) stand for TensorMath.pow_symm / log_sqrt_symm: tied by the stream '
+           'l1_spectral (binary64 evaluation inside Coq with the eigen-pairs of eigen_sym33_unit as oracle, rtol 1e-11)',
            'correspondence harness: float<->(mantissa,exponent) exchange; tolerance rtol 1e-9 (model-side exp/ln are 1e-15 approximations)',
            'theorems are over exact reals; binary64 rounding is covered only by the correspondence and the conclusion checks']
 ASSUMPTIONS = ['exact real arithmetic in theorems',
@@ -68,7 +70,9 @@ ASSUMPTIONS = ['exact real arithmetic in theorems',
                'rotation Q is stated as Q^T Q = Q Q^T = I, det Q = 1 (the two orthogonality equations are equivalent for square matrices)',
                'J2 and viscoelastic models: elastic regime / virgin internal state as stated in each theorem; dt > 0, tau > 0; det F > 0 where ln/pow of J occurs',
                'jax.grad of the primitives used is the derivative (conclusion checks on stresses)']
-RULE = ('inputs: seeded displacement gradients H = R1 diag(stretches) R2 - I with strain magnitude over 1e-6..0.5 (several decades), '
+RULE = ('factory histories: for every factory and option, model 1 is created, the caller\'s dictionary is edited and model 2 created, then both are '
+        'evaluated for the first time and compared with freshly created models on private copies + objectivity/isotropy/rest predicates; '
+        'inputs: seeded displacement gradients H = R1 diag(stretches) R2 - I with strain magnitude over 1e-6..0.5 (several decades), '
         'principal stretches distinct / two equal / three equal (dilation) / uniaxial along an in-plane axis / in-plane block form, '
         'det F > 0; rotations from random unit quaternions and in-plane rotations; a case is non-trivial when H != 0 and the rotation '
         'is not the identity; distinct = distinct (model, H, Q) tuples')
@@ -633,6 +637,164 @@ def l1_spectral(ctx, n):
         ctx.sample(dict(fn='L1-spectral', H=info[-1]['H'], kind=info[-1]['kind'], m=info[-1]['m'], impl=want[-1][:9]))
 
 
+# ----------------------------------------------------------------------------- factory histories (Python-state histories of the factories)
+
+def _factories():
+    """name -> (factory, base properties, option key or None, option values, finite(option) predicate, kind of call)"""
+    from optimism.material import LinearElastic, Neohookean, Gent, J2Plastic, HyperViscoelastic, MultiBranchHyperViscoelastic
+    from optimism.phasefield import PhaseFieldThreshold
+    mbp = {'equilibrium bulk modulus': MB_PROPS[0], 'equilibrium shear modulus': MB_PROPS[1]}
+    for b in range(3):
+        mbp['non equilibrium shear modulus %d' % (b + 1)] = MB_PROPS[2 + 2 * b]
+        mbp['relaxation time %d' % (b + 1)] = MB_PROPS[3 + 2 * b]
+    return {
+        'LinearElastic': (LinearElastic.create_material_model_functions, {'elastic modulus': E_MOD, 'poisson ratio': NU}, 'strain measure',
+                          ('linear', 'green lagrange', 'logarithmic'), lambda o: o != 'linear', 'plain'),
+        'Neohookean': (Neohookean.create_material_model_functions, {'elastic modulus': E_MOD, 'poisson ratio': NU}, 'version',
+                       ('adagio', 'coupled'), lambda o: True, 'plain'),
+        'J2Plastic': (J2Plastic.create_material_model_functions, {'elastic modulus': E_MOD, 'poisson ratio': NU, 'yield strength': 1e9,
+                                                                  'hardening model': 'linear', 'hardening modulus': 1.0}, 'kinematics',
+                      ('large deformations', 'small deformations', 'seth hill'), lambda o: o != 'small deformations', 'ravel'),
+        'PhaseFieldThreshold': (PhaseFieldThreshold.create_material_model_functions,
+                                {'elastic modulus': E_MOD, 'poisson ratio': NU, 'critical energy release rate': PF_PROPS[4],
+                                 'regularization length': PF_PROPS[5]}, 'kinematics', ('large deformations', 'small deformations'),
+                                lambda o: o == 'large deformations', 'pf'),
+        'Gent': (Gent.create_material_functions, {'bulk modulus': GENT_PROPS[0], 'shear modulus': GENT_PROPS[1], 'Jm parameter': GENT_PROPS[2]},
+                 None, (None,), lambda o: True, 'plain'),
+        'HyperViscoelastic': (HyperViscoelastic.create_material_model_functions,
+                              {'equilibrium bulk modulus': HV_PROPS[0], 'equilibrium shear modulus': HV_PROPS[1],
+                               'non equilibrium shear modulus': HV_PROPS[2], 'relaxation time': HV_PROPS[3]}, None, (None,), lambda o: True, 'plain'),
+        'MultiBranchHyperViscoelastic': (MultiBranchHyperViscoelastic.create_material_model_functions, mbp, None, (None,), lambda o: True, 'plain'),
+    }
+
+
+def _energy_of(model, call):
+    import jax.numpy as np
+    if call == 'pf':
+        st = model.compute_initial_state()
+        return lambda H: model.compute_energy_density(H, 0.0, np.zeros(3), st, DT)
+    st = model.compute_initial_state()
+    if call == 'ravel':
+        st = np.ravel(st)
+    return lambda H: model.compute_energy_density(H, st, DT)
+
+
+def _edit_numbers(d):
+    """what an analysis script does to the dictionary for the next material: other moduli, other length / time scales"""
+    for k in list(d):
+        if isinstance(d[k], (int, float)) and not isinstance(d[k], bool):
+            if k == 'poisson ratio':
+                d[k] = 0.3 if d[k] != 0.3 else 0.2
+            elif k == 'yield strength':
+                pass
+            else:
+                d[k] = d[k] * 3.0
+
+
+def factory_history_one(ctx, fname, o1, o2, H, Q, full=True):
+    """one history of one factory: d(o1) -> model 1 = create(d) -> d[option] = o2 (same moduli; factories without a discrete option: other
+    moduli) -> model 2 = create(d) -> the numbers of d are edited and the option dropped -> ONLY NOW the models are evaluated for the
+    first time (compiled single calls; model 1 also op-by-op where that is cheap).  Each model must be the model of the options it was
+    created with: equal to a model freshly created from a private copy of the dictionary as it was at its creation, zero energy at rest,
+    objective / isotropic when its option is a finite-deformation one, and the two models (different options) must differ.
+    full=False (quick tier): the fresh twin of model 2 is not compiled (model 2 is still checked by the predicates and the difference)."""
+    import copy
+    import jax
+    import jax.numpy as np
+    fac, base, key, opts, finite, call = _factories()[fname]
+    fails = []
+    d = dict(base)
+    if key is not None:
+        d[key] = o1
+    with contextlib.redirect_stdout(io.StringIO()):
+        snap1 = copy.deepcopy(d)
+        m1 = fac(d)
+        if key is not None:
+            d[key] = o2
+        else:
+            _edit_numbers(d)
+        snap2 = copy.deepcopy(d)
+        m2 = fac(d)
+        _edit_numbers(d)
+        if key is not None:
+            d.pop(key)                      # ... and the option is dropped (the default applies to whatever is created next)
+        fresh1 = fac(copy.deepcopy(snap1))
+        fresh2 = fac(copy.deepcopy(snap2)) if full else None
+    Hn, H0 = np.array(H), np.zeros((3, 3))
+    HLn, HRn = np.array(rotL(Q, H)), np.array(rotR(Q, H))
+    cheap = fname in ('LinearElastic', 'Neohookean', 'Gent')
+    skip2 = (not full) and fname == 'MultiBranchHyperViscoelastic'        # 2.3 s per compilation
+    values = {}
+    for which, m, snap, ref, opt in (('model 1', m1, snap1, fresh1, o1), ('model 2', m2, snap2, fresh2, o2)):
+        if which == 'model 2' and skip2:
+            continue
+        f = _energy_of(m, call)
+        modes = [('compiled single call', jax.jit(f))] + ([('op-by-op', f)] if (which == 'model 1' and (cheap or full)) else [])
+        er = float(jax.jit(_energy_of(ref, call))(Hn)) if ref is not None else None
+        for mode, g in modes:
+            e0 = float(g(Hn))
+            erest = float(g(H0))
+            values[which] = e0
+            ctx.count('factory_history_checks', 2)
+            scale = 3.0
+            base_case = dict(model=fname, check='factory_history', option=key, created_with=opt, o1=o1, o2=o2, which=which, mode=mode, H=H, Q=Q)
+            if er is not None and not abs(e0 - er) <= 1e-11 * abs(er) + 1e-15 * E_MOD:
+                fails.append(dict(kind='conclusion', concrete=True,
+                                  what='%s factory, %s (created with %s=%r, properties %r), evaluated (%s) after the caller\'s dictionary was edited and a second model '
+                                       'was created: energy %r, but a model freshly created from a private copy of the same properties gives %r'
+                                       % (fname, which, key, opt, snap, mode, e0, er),
+                                  case=dict(base_case, clause='fresh', e0=er, e1=e0)))
+            if not abs(erest) <= 1e-13 * E_MOD * scale:
+                fails.append(dict(kind='conclusion', concrete=True,
+                                  what='%s factory, %s (%s=%r) after a factory history: rest energy %r (must be 0)' % (fname, which, key, opt, erest),
+                                  case=dict(base_case, clause='rest', e0=0.0, e1=erest)))
+            if finite(opt):
+                t = scale * tol_energy(H, e0)
+                for lab, Hx in (('objectivity', HLn), ('isotropy', HRn)):
+                    ev = float(g(Hx))
+                    ctx.count('factory_history_checks')
+                    if not abs(ev - e0) <= t:
+                        fails.append(dict(kind='conclusion', concrete=True,
+                                          what='%s factory, %s (created with %s=%r) after a factory history (dictionary edited, second model with %r created), %s: '
+                                               '%s violated: energy %r -> %r (tol %.3g)' % (fname, which, key, opt, o2 if which == 'model 1' else o1, mode, lab, e0, ev, t),
+                                          case=dict(base_case, clause=lab, e0=e0, e1=ev)))
+    if len(values) == 2:
+        ctx.count('factory_history_checks')
+        e1, e2 = values['model 1'], values['model 2']
+        if not abs(e1 - e2) > 1e-6 * max(abs(e1), abs(e2)):
+            fails.append(dict(kind='conclusion', concrete=True,
+                              what='%s factory: the model created with %s and the model created afterwards with %s give the SAME energy %r at principal stretches 1 +- 0.05..0.25 '
+                                   '(a model built for other options was handed out)' % (fname, snap1, snap2, e1),
+                              case=dict(model=fname, check='factory_history', option=key, created_with=o2, o1=o1, o2=o2, which='model 2', mode='compiled single call',
+                                        H=H, Q=Q, clause='distinct', e0=e1, e1=e2)))
+    return fails
+
+
+def check_factory_history(ctx, every_pair):
+    """Python-state histories of every material factory (optimism/material/*.py, phasefield/PhaseFieldThreshold.py) and every option:
+    a factory must read its options at creation (not lazily from the caller's dictionary at evaluation / trace time) and must not hand
+    out a model built for other options (module-level caches under an incomplete key).  quick tier: one ordered pair of options per
+    factory drawn from the seed (LinearElastic: two); thorough: every ordered pair."""
+    r = ctx.rng('fhist')
+    fails = []
+    for fname, (fac, base, key, opts, finite, call) in _factories().items():
+        pairs = [(a, b) for a in opts for b in opts if a != b] or [(None, None)]
+        if not every_pair:
+            r.shuffle(pairs)
+            pairs = pairs[: (2 if fname == 'LinearElastic' else 1)]
+        for (o1, o2) in pairs:
+            # a genuinely strained state (principal stretches 1 +- 0.05..0.25, distinct, arbitrary axes): the strain measures /
+            # kinematics options differ visibly here
+            e = [r.choice([-1, 1]) * r.uniform(0.05 + 0.07 * i, 0.10 + 0.07 * i) for i in range(3)]
+            r.shuffle(e)
+            F = mm(quat_rot(r), mm([[1.0 + e[0], 0, 0], [0, 1.0 + e[1], 0], [0, 0, 1.0 + e[2]]], quat_rot(r)))
+            H = sub(F, ident())
+            Q = quat_rot(r)
+            ctx.count('factory_histories')
+            fails += factory_history_one(ctx, fname, o1, o2, H, Q, full=every_pair)
+    return fails
+
+
 def pk1_closed_form(name, H):
     """the explicit first Piola-Kirchhoff tensors of coq/proofs/L_C08c.v (P_neo_coupled, P_adagio, P_gent, P_le_gl), plain numpy"""
     import numpy as onp
@@ -835,6 +997,7 @@ def correspondence(ctx, model_ok):
     fails += check_pow_derivative(ctx, ctx.n(8, 80))
     fails += check_spec_diff(ctx, cases[: ctx.n(20, 200)])
     fails += check_pk1(ctx, cases[: ctx.n(12, 120)])
+    fails += check_factory_history(ctx, every_pair=(ctx.n(0, 1) == 1))
     nfin = sum(1 for m in models().values() if m['finite'])
     ctx.count('evaluations', len(cases) * nfin * 3 + 2 * len(models()))
     ctx.count('distinct_nontrivial', len({(json.dumps(c[0]), json.dumps(c[2])) for c in cases if fro(c[0]) > 0}) * nfin)
@@ -869,6 +1032,7 @@ def search(ctx, reasons):
     fails += check_pow_derivative(c2, 40)
     fails += check_spec_diff(c2, cases[:100])
     fails += check_pk1(c2, cases[:60])
+    fails += check_factory_history(c2, every_pair=True)
     known = [f for f in C.load_known_findings() if f['property'] == ID and f['status'] == 'open']
     for f in fails:
         if f.get('concrete') and not any(matches_finding(f, k) for k in known):
@@ -1020,6 +1184,10 @@ def replay(ctx, path):
     if case.get('check') == 'lss_derivative':
         fails = check_lss_derivative(ctx, 12)
         print('implementation now:', [x['what'] for x in fails] or 'conclusion holds')
+        return 1 if fails else 0
+    if case.get('check') == 'factory_history':
+        fails = factory_history_one(ctx, case['model'], case['o1'], case['o2'], case['H'], case['Q'])
+        print('implementation now:', [x['what'] for x in fails][:4] or 'conclusion holds')
         return 1 if fails else 0
     if case.get('check') == 'pow_derivative':
         fails = check_pow_derivative(ctx, 16)
